@@ -5,6 +5,7 @@ import (
 	"fmt"
 	"math/big"
 	"math/bits"
+	"strings"
 	"testing"
 	"verif/cs"
 	"verif/rec"
@@ -81,7 +82,7 @@ func c14PopRun(a c14Pop) caseResult {
 	ps, ok := c14PopSystems[key]
 	if !ok {
 		kind := cs.R1CS
-		if a.Backend == "scs" {
+		if strings.HasPrefix(a.Backend, "scs") {
 			kind = cs.SCS
 		}
 		fn := func(api frontend.API, v []frontend.Variable) []frontend.Variable {
@@ -93,7 +94,11 @@ func c14PopRun(a c14Pop) caseResult {
 			}
 			return nil
 		}
-		ps.sys, ps.err = cs.Compile(kind, cs.MechCommit, 2, 0, fn)
+		mech := cs.MechCommit
+		if strings.HasSuffix(a.Backend, "+native-thin") {
+			mech = cs.MechNativeThin // builder wrapped by a struct that only adds Check
+		}
+		ps.sys, ps.err = cs.Compile(kind, mech, 2, 0, fn)
 		if len(c14PopSystems) > 4 {
 			c14PopSystems = map[string]c14PopSys{}
 		}
@@ -203,7 +208,7 @@ func TestC14(t *testing.T) {
 	s := newSuite("C14")
 	r := s.r
 	defer r.Flush()
-	r.Rule("(a) assertLeadingZeros through its export hook: response in {2^(64-b)-1, 2^(64-b), 2^(64-b)+1, p-1, 0, random of every bit length} x difficulty b in 1..63 (native, plain, forced-bits flavours) and b in {16,32,48} under the padded commit flavour; accept <=> response < 2^(64-b); the same check compiled with gnark's R1CS and SCS builders under the commit range checker inside circuits with 0..57000 further Goldilocks range checks (circuits the chip refuses are trivial cases; circuits that compile must be exact at 2^(64-b)-1, 2^(64-b), 2^(64-b)+1, 2^(64-b+j); one size per geometric bucket of ratio 1.2 (thorough 1.03) and builder).  (b) exported VerifyFriProof on one-round prefixes of real proofs with all challenges supplied by the reference and only the PoW response replaced.  (c) PoW witness substituted into real transcripts: the response is recomputed in circuit (GetChallenges) and checked at a drawn difficulty; witnesses are drawn at random and ground natively until the reference response has the required zeros, so both verdicts occur; accept <=> reference response of the supplied witness has >= b leading zeros.  Non-trivial = every case; distinct = (response|witness, difficulty, flavour).")
+	r.Rule("(a) assertLeadingZeros through its export hook: response in {2^(64-b)-1, 2^(64-b), 2^(64-b)+1, p-1, 0, random of every bit length} x difficulty b in 1..63 (native, plain, forced-bits flavours) and b in {16,32,48} under the padded commit flavour; accept <=> response < 2^(64-b); the same check compiled with gnark's R1CS and SCS builders under the commit range checker (and behind a thin native-range-checker wrapper, difficulties 1..63) inside circuits with 0..57000 further Goldilocks range checks (circuits the chip refuses are trivial cases; circuits that compile must be exact at 2^(64-b)-1, 2^(64-b), 2^(64-b)+1, 2^(64-b+j); one size per geometric bucket of ratio 1.2 (thorough 1.03) and builder).  (b) exported VerifyFriProof on one-round prefixes of real proofs with all challenges supplied by the reference and only the PoW response replaced.  (c) PoW witness substituted into real transcripts: the response is recomputed in circuit (GetChallenges) and checked at a drawn difficulty; witnesses are drawn at random and ground natively until the reference response has the required zeros, so both verdicts occur; accept <=> reference response of the supplied witness has >= b leading zeros.  Non-trivial = every case; distinct = (response|witness, difficulty, flavour).")
 	r.Assume("reference transcript (C11)")
 	s.on("lz", func(b json.RawMessage) caseResult { return c14LzRun(unmarshal[c14Lz](b)) })
 	s.on("fri", func(b json.RawMessage) caseResult { return c14FriRun(unmarshal[c14Fri](b)) })
@@ -263,13 +268,19 @@ func TestC14(t *testing.T) {
 		if int(hi) <= int(lo) {
 			continue
 		}
-		for _, backend := range []string{"r1cs", "scs"} {
+		for _, backend := range []string{"r1cs", "scs", "r1cs+native-thin", "scs+native-thin"} {
+			if strings.HasSuffix(backend, "native-thin") && lo > 4000 {
+				continue // bit decomposition of every padding check: keep these circuits small
+			}
 			popItem++
 			if !mine(popItem) {
 				continue
 			}
 			h := rec.Hash(fmt.Sprint(rec.Seed(), "c14pop", popItem))
 			a := c14Pop{Backend: backend, Bits: []uint64{16, 32, 48}[h%3], PadN: int(lo) - 1 + int((h>>8)%uint64(int(hi)-int(lo)))}
+			if strings.HasSuffix(backend, "native-thin") {
+				a.Bits = 1 + (h>>16)%63 // a native checker has no width restriction
+			}
 			lim := pow2(uint(64 - a.Bits))
 			shift := uint(1 + (h>>40)%9)
 			for _, resp := range []*big.Int{new(big.Int).Sub(lim, big.NewInt(1)), lim, new(big.Int).Add(lim, big.NewInt(1)), new(big.Int).Lsh(lim, shift)} {
